@@ -1284,6 +1284,19 @@ class Evaluator:
                 return r
         if d.startswith(self.inline_prefixes) and d not in self.opaque and self.watch and name not in self.watch and name not in TRANSPARENT and name not in self.transparent and (st["depth"] >= self.max_depth or (d not in self.by_path and re.sub(r"::<[^>]*>$", "", d) not in self.by_path and n.get("def", "") not in self.by_path)) and not _plain_accessor(name) and self._may_reach_watched(d, n.get("def", "")):
             self.incomplete.append(f"call of {d} at line {n.get('line')} not followed (depth / no source-level body)")
+        # a collection held in a local is changed in place by a method the domain does not model (retain, remove,
+        # truncate, sort ..): from here on the local no longer holds the value it was given
+        rn = n.get("recv") or {}
+        while isinstance(rn, dict) and rn.get("k") in ("AddrOf", "DropTemps"):
+            rn = rn.get("x") or rn.get("e") or {}
+        if str(n.get("recv_ty", "")).startswith("&mut") and rn.get("k") == "Path" and (rn.get("res") or {}).get("local") and name not in self.watch and name not in ("next", "next_back", "pop", "pop_front", "pop_back", "recv", "read_line", "nth", "by_ref", "iter_mut", "as_mut", "borrow_mut", "get_mut", "entry", "as_mut_str", "as_mut_slice") and re.search(r"(HashMap|HashSet|BTreeMap|BTreeSet|Vec|VecDeque|String|AttrMap|ClassList)\b", str(n.get("recv_ty", ""))) and not d.startswith(self.inline_prefixes):
+            l_ = rn["res"]["local"]
+            if env.get(l_) is not None:
+                old_ = env[l_]
+                self.unk_deps.pop(l_, None)
+                self._note_unknown([l_], {"k": "Tup", "items": [rn] + list(n.get("args", []))}, env)
+                env[l_] = None
+                _ = old_
         # opaque local call: an atom over its operands.  Successive calls of a stateful method on the same receiver
         # (an iterator's next(), pop ...) are different values: they are numbered
         if all(a is not None for a in [recv] + args):
